@@ -35,7 +35,7 @@ func init() {
 func normMarkup(m data.MarkupInfo) string { return markupCanon(m) }
 
 func (c *Ctx) markupOf(src string) (data.MarkupInfo, bool) {
-	cr := c.applyReader(src, &distiller.Options{SkipPagination: true})
+	cr := c.applyVariant(src, &distiller.Options{SkipPagination: true}, c.curIdx/2)
 	if !c.usable(cr) {
 		return data.MarkupInfo{}, false
 	}
